@@ -1,5 +1,5 @@
 SPECIFICATION Spec
 CONSTANTS
   EmitTR = TRUE
-  Pairs = FALSE
+  Pairs = TRUE
 CHECK_DEADLOCK FALSE
